@@ -105,37 +105,45 @@ let register (h : (string, string list -> string) Hashtbl.t)
   (* ---------------- Model B: render ----------------
      render <opts iwt:ppiwt:ts:awt:akt:spnc:ftad:cts:inpp> <newline csv> <last_char> <spaces> <chunk>...
      chunk = kind:text:col:colind:nlcount:nlcol:origcol:origprevsp:pre:aligned:aftertab:lvlhack:ppdef:str:strmulti:ppignore:cmt:seg:segstate *)
+  let zi s =
+    if String.length s < 18 then z_of_int (int_of_string s)
+    else (* size_t values that wrapped around: build the number digit by digit *)
+      let acc = ref Z0 in
+      String.iter (fun ch -> if ch >= '0' && ch <= '9' then
+                      acc := Z.add (Z.mul !acc (z_of_int 10)) (z_of_int (Char.code ch - 48))) s;
+      if String.length s > 0 && s.[0] = '-' then Z.opp !acc else !acc in
+  let mk c =
+    (match String.split_on_char ':' c with
+     | [k; txt; col; ci; nc; ncol; oc; ops; pre; al; at; lh; pd; st; sm; pi; cm; sg; ss] ->
+       let kind = (match k with "N" -> CKNewline | "C" -> CKNlCont | "M" -> CKComment | "I" -> CKIgnored | "O" -> CKOther | _ -> CKSkipped) in
+       let (sc, ssp, sl, sd) = (match String.split_on_char '.' ss with
+         | [a;b;c;d] -> (zi a, zi b, zi c, d = "1") | _ -> failwith "segstate") in
+       { ck = kind; text = ints_of_csv txt; col = zi col; col_indent = zi ci; nl_count = zi nc; nl_col = zi ncol;
+         orig_col = zi oc; orig_prev_sp = zi ops; preproc = (pre = "1"); was_aligned = (al = "1"); after_tab = (at = "1");
+         lvl_hack = (lh = "1"); is_pp_define = (pd = "1"); is_string = (st = "1"); is_string_multi = (sm = "1");
+         is_pp_ignore = (pi = "1"); is_comment_kind = (cm = "1"); seg = ints_of_csv sg;
+         seg_column = sc; seg_spaces = ssp; seg_last = sl; seg_did_nl = sd }
+     | _ -> failwith ("chunk fields: " ^ c)) in
   Hashtbl.replace h "render" (fun args ->
     match args with
     | os :: nl :: last :: sp :: chunks ->
-      let zi s =
-        if String.length s < 18 then z_of_int (int_of_string s)
-        else (* size_t values that wrapped around: build the number digit by digit *)
-          let acc = ref Z0 in
-          String.iter (fun ch -> if ch >= '0' && ch <= '9' then
-                          acc := Z.add (Z.mul !acc (z_of_int 10)) (z_of_int (Char.code ch - 48))) s;
-          if String.length s > 0 && s.[0] = '-' then Z.opp !acc else !acc in
       let o = (match String.split_on_char ':' os with
         | [a;b;c;d;e;f;g;hh;i] ->
           { indent_with_tabs = zi a; pp_indent_with_tabs = zi b; output_tab_size = zi c; align_with_tabs = (d = "1");
             align_keep_tabs = (e = "1"); sp_before_nl_cont = zi f; force_tab_after_define = (g = "1");
             cmt_convert_tab_to_spaces = (hh = "1"); in_preproc_at_output = (i = "1") }
         | _ -> failwith "render opts") in
-      let mk c =
-        (match String.split_on_char ':' c with
-         | [k; txt; col; ci; nc; ncol; oc; ops; pre; al; at; lh; pd; st; sm; pi; cm; sg; ss] ->
-           let kind = (match k with "N" -> CKNewline | "C" -> CKNlCont | "M" -> CKComment | "I" -> CKIgnored | "O" -> CKOther | _ -> CKSkipped) in
-           let (sc, ssp, sl, sd) = (match String.split_on_char '.' ss with
-             | [a;b;c;d] -> (zi a, zi b, zi c, d = "1") | _ -> failwith "segstate") in
-           { ck = kind; text = ints_of_csv txt; col = zi col; col_indent = zi ci; nl_count = zi nc; nl_col = zi ncol;
-             orig_col = zi oc; orig_prev_sp = zi ops; preproc = (pre = "1"); was_aligned = (al = "1"); after_tab = (at = "1");
-             lvl_hack = (lh = "1"); is_pp_define = (pd = "1"); is_string = (st = "1"); is_string_multi = (sm = "1");
-             is_pp_ignore = (pi = "1"); is_comment_kind = (cm = "1"); seg = ints_of_csv sg;
-             seg_column = sc; seg_spaces = ssp; seg_last = sl; seg_did_nl = sd }
-         | _ -> failwith ("chunk fields: " ^ c)) in
       let l = List.map mk chunks in
       csv_of_ints (realise (ints_of_csv nl) (render o (zi last) (zi sp) l))
     | _ -> failwith "render args");
+  (* K_nlmax (Model/NlMax.v): nlmax <N> <chunk>... -> "<accepted 0|1> <all chunks in the theorem's scope 0|1>" *)
+  Hashtbl.replace h "nlmax" (fun args ->
+    match args with
+    | n :: chunks ->
+      let l = List.map mk chunks in
+      Printf.sprintf "%d %d" (if nlmax_ok (nat_of_int (int_of_string n)) l then 1 else 0)
+        (if List.for_all in_scope l then 1 else 0)
+    | _ -> failwith "nlmax args");
   Hashtbl.replace h "check_exit" (fun args ->
     match args with
     | [bits] ->
